@@ -188,7 +188,8 @@ def case_strategy(draw, tier="quick"):
                         busy[vi][tuple(idx.T)] = False
                     if evk != "cancel":
                         numrecs = max(numrecs, pst.get("top", 0))
-    return {"schema": sch, "k": k, "events": events}
+    # intra-node write aggregation at wait_all (hint nc_num_aggrs_per_node): 0 = off
+    return {"schema": sch, "k": k, "events": events, "aggr": min(k, draw(st.sampled_from([0, 0, 0, 1, 1, 2])))}
 
 
 def _fm_of(sch):
@@ -214,8 +215,10 @@ def build(case):
     p = Prog(k=k)
     events = case["events"]
     define_first = bool(events and events[0].get("define"))
-    fm = define_schema(p, sch, enddef=not define_first)
-    labels = set(["k%d" % k, "fmt%d" % sch["fmt"]])
+    if case.get("aggr"):
+        p.s.op("info", i="i1", **{"h__nc_num_aggrs_per_node": hx(str(case["aggr"]))})
+    fm = define_schema(p, sch, enddef=not define_first, info="i1" if case.get("aggr") else None)
+    labels = set(["k%d" % k, "fmt%d" % sch["fmt"], "aggregators_per_node_%d" % case.get("aggr", 0)])
     nontrivial = False
     in_define = define_first
     attached = False
